@@ -158,7 +158,7 @@ def run(ctx):
                     text = "[%s]\n%s%s=%s\n" % (sec, docs.MINIMAL[typ], k, val)
                 path = "/d/u%d.%s" % (len(cases), typ)
                 cases.append(case_line("convert", "0", path, text)); meta.append((typ, k, path, "own"))
-        for k in ["defaultdependencies", "DefaultDependency", "Bogus", "Image"]:
+        for k in ["defaultdependencies", "DefaultDependency", "Bogus", "Image", "ServiceName", "PodmanArgs", "GlobalArgs", "ContainersConfModule"] + rng.sample(doc, 3):      # keys of the unit's OWN section are not keys of [Quadlet]
             for val in ["no", "", '""']:
                 text = "[%s]\n%s[Quadlet]\n%s=%s\n" % (sec, docs.MINIMAL[typ], k, val)
                 path = "/d/q%d.%s" % (len(cases), typ)
